@@ -119,6 +119,38 @@ func TestVerifEnumC08(t *testing.T) {
 		}
 	}
 
+	// 0b. the same candidate written with other token separators: every ICE implementation splits the
+	// attribute on runs of blanks, so "typ  host" or a tab is still a host candidate
+	r.Begin("spacing", "one candidate (8 addresses x host/srflx) whose tokens are separated by two spaces, a tab or a mix at each of the 7 gaps of the attribute (and at all of them): local host candidates removed, everything else kept verbatim")
+	if r.Shard0() {
+		addrs := []string{"192.168.0.100", "10.0.0.1", "172.31.255.255", "100.64.0.1", "169.254.1.1", "fd00::1", "8.8.8.8", "2001:db8::1"}
+		seps := []string{"  ", "\t", " \t", "   "}
+		for _, a := range addrs {
+			for _, typ := range []string{"host", "srflx"} {
+				toks := []string{"a=candidate:1000", "1", "udp", "2130706431", a, "50000", "typ", typ}
+				for gap := 0; gap <= 7; gap++ {
+					for _, sep := range seps {
+						var sb strings.Builder
+						for i, t := range toks {
+							if i > 0 {
+								if gap == 7 || gap == i-1 {
+									sb.WriteString(sep)
+								} else {
+									sb.WriteByte(' ')
+								}
+							}
+							sb.WriteString(t)
+						}
+						line := sb.String()
+						doc := sdpHeader + "m=application 9 UDP/DTLS/SCTP webrtc-datachannel\r\nc=IN IP4 0.0.0.0\r\na=ice-ufrag:CGnA\r\n" + line + "\r\na=mid:0\r\n"
+						r.Case("sp|"+line, true)
+						checkStrip(r, doc, func() interface{} { return map[string]interface{}{"candidate_line": line} })
+					}
+				}
+			}
+		}
+	}
+
 	// 1. single candidate of every type and address, in every position/layout, 1-2 media sections
 	r.Begin("single", "one candidate: address alphabet (48) x candidate type (4) x layout (3) x media sections (1-2) x section carrying it")
 	for _, a := range addrAlphabet {
